@@ -83,3 +83,17 @@ Definition c17_case_po (p : pat) (o : outcome) : N :=
   | 0%N => match o with Decomposed t => c17_postorder t | _ => 0%N end
   | c => c
   end.
+
+(** model validation (information only, code 2): [reorder_snode_consecutively] against the proved
+    model Chordal/Reorder.v — supernodes, separators (as sets) and ordering after the call *)
+Require Clarabel.Chordal.Reorder.
+Definition nn (l : list N) : list nat := map N.to_nat l.
+Definition c17_reorder (snode seps : list (list N)) (post ordering : list N)
+           (snode' seps' : list (list N)) (ordering' : list N) : N :=
+  let '(ns, nsp, no) := Reorder.reorder (map nn snode) (map nn seps) (nn post) (nn ordering) in
+  if natlist_eqb (concat ns) (concat (map nn snode'))
+     && (length ns =? length snode')%nat
+     && forallb (fun ab => natlist_eqb (Reorder.isort (fst ab)) (snd ab)) (combine nsp (map nn seps'))
+     && (length nsp =? length seps')%nat
+     && natlist_eqb no (nn ordering')
+  then 0%N else 2%N.
